@@ -46,6 +46,14 @@ def do_hop(fmt, ir):
     return F.hop(fmt, ir, "rest", False)
 
 
+def internal_digest(ir):
+    import ast as _ast
+
+    it = ir.get("_internal") or {}
+    body = it.get("body") or []
+    return (it.get("original_doc_str"), tuple(_ast.dump(b) if isinstance(b, _ast.AST) else repr(b) for b in body), it.get("from_name"), it.get("from_type"))
+
+
 def strip_internal(ir):
     ir = dict(ir)
     ir.pop("_internal", None)
@@ -55,7 +63,7 @@ def strip_internal(ir):
 def run(case):
     ir0 = F.ir_from_json(case["ir"])
     depth_bound = case.get("depth", 4)
-    start = O.canon_ir(ir0)
+    start = (O.canon_ir(ir0), internal_digest(ir0))
     seen = {start}
     frontier = deque([(ir0, [])])
     viol, transitions, closed, max_depth, poisoned = [], 0, True, 0, 0
@@ -79,7 +87,8 @@ def run(case):
                 sig["default_kinds"] = ",".join(sorted({A.vkind(O.normdefault(p["default"]) if "default" in p else O.ABSENT) for p in ps}))
                 viol.append(dict(sig=sig, expected="hop completes", observed=str(e)[:300], detail=dict(path=newpath, source_state=F.ir_to_json(strip_internal(ir))), case=dict(ir=case["ir"], path=newpath)))
                 continue
-            back = strip_internal(back)
+            # `_internal` (original docstring, body) is carried along in the live object - real chains hand the parser's result straight to the
+            # next emitter - but is not part of the compared interface; it is part of the state key so that merged states have equal futures
             hop_viol = list(map(abstract_typ, O.compare(ir, back, RULES, ctx)))
             for v in hop_viol:
                 v["detail"] = dict(path=newpath, source_state=repr(O.project(ir)[0]), text=text)
@@ -89,7 +98,7 @@ def run(case):
                 # the target state is already wrong: what happens to a corrupted interface afterwards is not the property's subject
                 poisoned += 1
                 continue
-            k = O.canon_ir(back)
+            k = (O.canon_ir(back), internal_digest(back))
             interfaces.add(O.canon_ir(back, with_doc=False))
             if k not in seen:
                 if len(seen) >= 400:
@@ -155,7 +164,6 @@ def replay_case(case):
             sig["default_kinds"] = ",".join(sorted({A.vkind(O.normdefault(p["default"]) if "default" in p else O.ABSENT) for p in ps}))
             viol.append(dict(sig=sig, expected="hop completes", observed=str(e)[:300]))
             break
-        back = strip_internal(back)
         if i == len(case["path"]) - 1:
             viol.extend(map(abstract_typ, O.compare(ir, back, RULES, ctx)))
         ir = back
